@@ -191,7 +191,7 @@ def literal_texts(run):
         add("escape-combo", t)
     # integers
     for k in [1, 2, 3, 5, 10, 19, 20, 39, 100, 1000, 4000, 4299, 4300, 4301, 5000]:
-        for _ in range(run.n(4, 30)):
+        for _ in range(run.n(4 if k < 4000 else 2, 30 if k < 4000 else 8)):
             add("int", rng.choice("123456789") + "".join(rng.choice("0123456789") for _ in range(k - 1)))
         add("int", "0" * k)
         add("int", "0" * (k // 2) + "7" * (k - k // 2))
@@ -281,7 +281,13 @@ def correspondence(run):
                       "required": "a constant, a YAQL lexical error or a YAQL grammar error"})
         cases.append(lcase_term(t, o))
         meta.append((kind, t, o))
-    bad = run.coq_mismatches(HEADER, "lcase", "lcase_ok", cases, shard=run.n(500, 1000))
+    # long numerals cost the model seconds each (positional Horner on Z): small shards spread them over the workers
+    order = sorted(range(len(cases)), key=lambda i: len(meta[i][1]) <= 800)
+    nbig = sum(1 for m in meta if len(m[1]) > 800)
+    cases = [cases[i] for i in order]
+    meta = [meta[i] for i in order]
+    bad = run.coq_mismatches(HEADER, "lcase", "lcase_ok", cases[:nbig], shard=3)
+    bad += [nbig + i for i in run.coq_mismatches(HEADER, "lcase", "lcase_ok", cases[nbig:], shard=run.n(500, 1000))]
     for i in bad[:12]:
         kind, t, o = meta[i]
         report_mismatch(run, "literal", kind, t, [o])
